@@ -21,7 +21,7 @@ def gen(rng):
             "work": [rng.choice(["quick", "fail", "block", "quick"]) for _ in range(rng.randint(0, 4))],
             "wait": rng.random() < 0.7, "kwargs": rng.choice([{}, {}, {"cancel_futures": True}, {"cancel_futures": False}]),
             "racers": rng.randint(0, 2), "second_shutdown": rng.random() < 0.5, "shutdown_delay": rng.choice([0, 0, 1, 3]),
-            "poll_resolves": rng.random() < 0.6}
+            "poll_resolves": rng.random() < 0.6, "co_shutters": rng.choice([0, 0, 0, 1, 2])}
 
 
 def execute(p, chooser):
@@ -115,7 +115,20 @@ def execute(p, chooser):
                 n0 = len(obs["rec"])
                 top.shutdown(p["wait"], **p["kwargs"])
                 obs["second"] = len(obs["rec"]) - n0
+        def co_shutter():
+            # another thread calling shutdown() on the same executor at the same moment
+            if p["shutdown_delay"]:
+                det.sleep(p["shutdown_delay"])
+            top.shutdown(p["wait"], **p["kwargs"])
         ts = [det.spawn("sh", shutter), det.spawn("op", opener)] + [det.spawn("r%d" % k, racer(k)) for k in range(p["racers"])]
+        cs = [det.spawn("sh%d" % (k + 2), co_shutter) for k in range(p.get("co_shutters", 0))]
+        for t in cs + ts[:1]:
+            t.join()
+        with det.atomic():
+            # once every shutdown() has returned, the one that performed the shutdown has returned too
+            obs["alive_at_all_returned"] = [t.name for t in mine if not t.done] if obs["returned"] else None
+            if p.get("co_shutters"):
+                obs["flags"] = [getattr(o._shutdown, "is_shutdown", o._shutdown) if hasattr(o, "_shutdown") else None for (k, o) in objs]
         for t in ts:
             t.join()
 
@@ -158,10 +171,12 @@ def monitor(r, obs):
             out.append({"what": "executor %d down the chain received %d shutdown() calls" % (idx, len(calls)), "detail": str(p), "pattern": "shutdown:propagation-count"})
         elif calls[0] != ((p["wait"],), want_kw):
             out.append({"what": "executor %d down the chain received shutdown%r %r" % (idx, calls[0][0], calls[0][1]), "detail": str(p), "pattern": "shutdown:propagation-args"})
-    if obs["second"] not in (None, 1):
+    if obs["second"] not in (None, 1) and not p.get("co_shutters"):
         out.append({"what": "second shutdown() propagated %d further calls" % (obs["second"] - 1), "detail": str(p), "pattern": "shutdown:not-idempotent"})
-    if p["wait"] and obs["alive_at_return"]:
+    if p["wait"] and obs["alive_at_return"] and not p.get("co_shutters"):
         out.append({"what": "worker threads still alive when shutdown(wait=True) returned: %s" % obs["alive_at_return"], "detail": str(p), "pattern": "shutdown:not-joined"})
+    if p["wait"] and p.get("co_shutters") and obs.get("alive_at_all_returned"):
+        out.append({"what": "worker threads still alive after every concurrent shutdown(wait=True) returned: %s" % obs["alive_at_all_returned"], "detail": str(p), "pattern": "shutdown:not-joined"})
     if obs.get("flags") and not all(f in (True, None) for f in obs["flags"]):
         out.append({"what": "not every layer is marked shut down: %s" % obs["flags"], "detail": str(p), "pattern": "shutdown:flag"})
     return out
